@@ -157,7 +157,7 @@ class ExprGen:
 
 # ------------------------------------------------------------------ signals
 
-def gen_signals(rng, n_in=None, n_out=None, n_bidir=None, wide=False, odd_names=False):
+def gen_signals(rng, n_in=None, n_out=None, n_bidir=None, wide=False, odd_names=False, scope_names=False):
     """returns list of dicts {name, typ: I|O|B, bits, default}"""
     n_in = rng.randrange(1, 4) if n_in is None else n_in
     n_out = rng.randrange(1, 4) if n_out is None else n_out
@@ -165,6 +165,9 @@ def gen_signals(rng, n_in=None, n_out=None, n_bidir=None, wide=False, odd_names=
     names_in = ["A", "B", "CLK", "D", "EN"]
     names_out = ["Q", "R", "S", "T", "U"]
     names_bi = ["BUS", "IO"]
+    if scope_names:
+        names_out = ["n", "i1", "v1", "Q", "w1"]
+        rng.shuffle(names_out)
     if odd_names and rng.random() < 0.5:
         names_in = ["A-1", "~B", "CLK", "é", "IN[0]"]
         names_out = ["Q", "R'", "S", "T.x", "汉"]
@@ -232,6 +235,7 @@ class ProgGen:
             if profile.get("reads", 0) > 0 else []
         self.budget = profile.get("budget", 12)
         self.uses_reads = set()
+        self.dead = []
 
     def fresh(self, prefix="v"):
         self.counter += 1
@@ -240,6 +244,12 @@ class ProgGen:
     def egen(self, scope, depth=None, allow_random=None):
         p = self.p
         outs = self.readable if self.rng.random() < p.get("reads", 0) else []
+        if p.get("dead_names", 0) > 0 and self.rng.random() < p["dead_names"]:
+            # names that are NOT variables here but look like ones used elsewhere (counters of loops that
+            # have ended, `n` of a repeat, ...): reads of the output of that name, or a bind error
+            dead = sorted(set(d for d in self.dead if d not in scope))
+            self.rng.shuffle(dead)
+            outs = list(outs) + dead[:2]
         eg = ExprGen(self.rng, vars_=scope, outs=outs,
                      allow_random=(p.get("random", 0) > 0) if allow_random is None else allow_random,
                      allow_div=p.get("div", True), small=p.get("small", True),
@@ -261,6 +271,8 @@ class ProgGen:
             if x < p.get("pZ", 0.05):
                 return ("Z",)
         else:
+            if r.random() < p.get("pC_out", 0.0):
+                return ("C",)
             if x < p.get("pXout", 0.2):
                 return ("X",)
             x -= p.get("pXout", 0.2)
@@ -322,9 +334,11 @@ class ProgGen:
                     bound = self.loop_bound(scope)
                     body = self.block(scope + [v], depth + 1, r.randrange(1, 4))
                     out.append(("loop", v, bound, body))
+                    self.dead.append(v)
                 elif kind < 0.7:
                     bound = self.loop_bound(scope)
                     out.append(("repeat", bound, self.row(scope + ["n"])))
+                    self.dead.append("n")
                 else:
                     # terminating while: dedicated counter, incremented at the end of the body
                     w = self.fresh("w")
@@ -492,7 +506,7 @@ class Layout:
 
 # ------------------------------------------------------------------ driver scripts
 
-def gen_script(rng, sigs_bound_names, sigs, virtual_count, reads, profile):
+def gen_script(rng, sigs_bound_names, sigs, virtual_count, reads, profile, reads_prog=None):
     """layout: indices into the bound signal list (given signals followed by virtual ones)"""
     out_idx = [i for i, s in enumerate(sigs) if s["typ"] in ("O", "B")]
     must = [i for i in out_idx if sigs[i]["name"] in reads]
@@ -510,7 +524,7 @@ def gen_script(rng, sigs_bound_names, sigs, virtual_count, reads, profile):
         for i in layout:
             x = rng.random()
             pz = profile.get("pZX", 0.05)
-            if i in must:
+            if i in must and (reads_prog is None or sigs[i]["name"] in reads_prog):
                 pz = profile.get("pZXread", 0.02)
             if x < pz:
                 row.append(rng.choice(["Z", "X"]))
@@ -548,7 +562,7 @@ DEFAULT_PROFILE = {"reads": 0.3, "random": 0, "declare": 0.0, "depth": 3, "maxde
                    "small": True, "pC": 0.08, "pX": 0.08, "pZ": 0.04, "pbits": 0.05, "echo": 0.5}
 
 
-def collect_reads(body, acc, decl_only=False):
+def collect_reads(body, acc, decl_only=False, skip_declare=False):
     for s in body:
         k = s[0]
         if k == "let":
@@ -561,15 +575,16 @@ def collect_reads(body, acc, decl_only=False):
                     used_names(e[2], acc)
         elif k == "loop":
             used_names(s[2], acc)
-            collect_reads(s[3], acc)
+            collect_reads(s[3], acc, skip_declare=skip_declare)
         elif k == "repeat":
             used_names(s[1], acc)
-            collect_reads([s[2]], acc)
+            collect_reads([s[2]], acc, skip_declare=skip_declare)
         elif k == "while":
             used_names(s[1], acc)
-            collect_reads(s[2], acc)
+            collect_reads(s[2], acc, skip_declare=skip_declare)
         elif k == "declare":
-            used_names(s[2], acc)
+            if not skip_declare:
+                used_names(s[2], acc)
 
 
 def gen_run_case(cid, seed, profile=None):
@@ -579,7 +594,7 @@ def gen_run_case(cid, seed, profile=None):
         p.update(profile)
     rng = random.Random(seed)
     sigs = gen_signals(rng, wide=p.get("wide", False), odd_names=p.get("odd_names", False),
-                       n_bidir=p.get("n_bidir"))
+                       n_bidir=p.get("n_bidir"), scope_names=(rng.random() < p.get("scope_names", 0.0)))
     cols = gen_header(rng, sigs, full=p.get("full_header", False))
     pg = ProgGen(rng, cols, sigs, p)
     body = pg.block([], 0, rng.randrange(2, 7))
@@ -612,10 +627,15 @@ def gen_run_case(cid, seed, profile=None):
     text = lay.render(cols, body)
     reads = set()
     collect_reads(body, reads)
-    script = gen_script(rng, None, sigs, len(pg.virtuals), reads, p)
+    # outputs read only by declarations may be Z / X like any other output (-> the virtual signal fails on that row)
+    reads_prog = set()
+    collect_reads(body, reads_prog, skip_declare=True)
+    script = gen_script(rng, None, sigs, len(pg.virtuals), reads, p, reads_prog=reads_prog)
     case = {"id": cid, "kind": "run", "src": text, "sigs": sigs, "max": p.get("max", 200), "seed": seed & 0xFFFFFFFF,
             "gen": {"row_lines": lay.row_lines, "body": body, "cols": cols}}
     case.update(script)
+    if rng.random() < p.get("cont", 0.0):
+        case["cont"] = 1
     return case
 
 
@@ -651,6 +671,8 @@ def write_case(f, c):
         f.write("niter %d\n" % c["niter"])
     if c.get("cont"):
         f.write("cont 1\n")
+    for i, b in c.get("rebits", []):
+        f.write("rebits %d %d\n" % (i, b))
     if "sched" in c:
         f.write("sched %s\n" % " ".join(str(i) for i in c["sched"]))
     f.write("end\n")
